@@ -263,9 +263,9 @@ func report(prop, tier string, seed int, jobs []*Job, rep *replayer, P *Program,
 	}
 	violations := 0
 	var lines []string
-	var inconclusive []map[string]string
-	var knownHit []string
-	var unrepro []string
+	inconclusive := []map[string]string{}
+	knownHit := []string{}
+	unrepro := []string{}
 	states, transitions := 0, int64(0)
 	obligs, discharged, concrete := 0, 0, 0
 	distinctNontrivial := 0
